@@ -1,5 +1,6 @@
 import Protocol
 import GtfsVerif.Model.Static
+import GtfsVerif.Model.Float
 open Lean Gtfs Gtfs.Proto
 namespace Gtfs.DStatic
 open Gtfs.Static
@@ -85,9 +86,14 @@ def handle (j : Json) : R Json := do
   let env ← envOf j
   let members ← membersOf j "members"
   let variants ← getList (fun v => asList (fun e => do pure (← getStr e "name", ← getStr e "data")) v) j "variants"
+  -- every float the harness reports for a cell is certified against the cell's exact decimal value
+  let floats ← getList (fun e => do pure (← getStr e "cell", ← getOpt asNat e "bits")) j "floats"
+  let certs := floats.filterMap fun (c, b) => (Float.certify c b).map fun ok => (c, ok)
+  let failed := (certs.filter fun p => !p.2).map (·.1)
   let entries ← getList (fun e => do pure (← getOpt asStr e "resolved", ← getOpt tableOf e "table")) j "zones"
   let ts : Tables := entries.filterMap fun e => match e with | (some n, some t) => some (n, t) | _ => none
-  return jObj [("main", outcomeJ ts (parse env members)), ("variants", jList (fun ms => outcomeJ ts (parse env ms)) variants)]
+  return jObj [("main", outcomeJ ts (parse env members)), ("variants", jList (fun ms => outcomeJ ts (parse env ms)) variants),
+               ("floatCert", jObj [("checked", jNat certs.length), ("failed", jList jStr failed)])]
 
 /-- the CSV reader alone (validation of the reader model against encoding/csv) -/
 def handleCsv (j : Json) : R Json := do
@@ -95,5 +101,10 @@ def handleCsv (j : Json) : R Json := do
   match Csv.readFile data with
   | none => return jObj [("ok", jBool false)]
   | some f => return jObj [("ok", jBool true), ("header", jList jStr f.header), ("rows", jList (jList jStr) f.rows), ("bodyError", jBool f.bodyError)]
+
+/-- the float certificate alone (validation against strconv.ParseFloat, with negative controls) -/
+def handleFloat (j : Json) : R Json := do
+  let cells ← getList (fun e => do pure (← getStr e "cell", ← getOpt asNat e "bits")) j "cells"
+  return jObj [("results", jList (fun (c, b) => jOpt jBool (Float.certify c b)) cells)]
 
 end Gtfs.DStatic
